@@ -443,6 +443,19 @@ func genC04(g *prng.R) c04Case {
 	}
 	sc.Requests = []sim.Request{sim.PostInboxReq(aliceIn(), withCtx(act))}
 	if typ == "Follow" && sc.Cfg.OnFollow != 0 && g.Chance(1, 6) {
+		// a Follow whose context gives another vocabulary an alias, with an
+		// actor that uses it: the answer embeds the Follow, so it has to
+		// declare the alias too
+		if fa, isL := act["actor"].(A); isL && len(fa) > 0 {
+			if id, ok := idOfValue(fa[0]); ok {
+				fa[0] = M{"type": "Person", "id": id, "sec:publicKey": M{"id": id + "#main-key", "sec:owner": id, "sec:publicKeyPem": "-----BEGIN PUBLIC KEY-----"}}
+				body := withCtx(act)
+				body["@context"] = A{AS, M{"https://w3id.org/security/v1": "sec"}}
+				sc.Requests[0].Body = body
+				cs.Info["secondary_vocabulary_alias"] = true
+			}
+		}
+	} else if typ == "Follow" && sc.Cfg.OnFollow != 0 && g.Chance(1, 6) {
 		// the same Follow under an aliased vocabulary
 		sc.Requests[0].Body = aliasDoc(act)
 		cs.Info["aliased_context"] = true
@@ -710,6 +723,40 @@ func init() {
 						}
 						if !sameSet(idsOf(pm["to"]), d["to"].([]string)) {
 							viol("response-shape", b.Site, "to", fmt.Sprintf("to=%v want %v", idsOf(pm["to"]), d["to"]))
+						}
+						// every prefix the payload's member names use is
+						// declared in its @context
+						declared := map[string]bool{}
+						for _, c := range asList(pm["@context"]) {
+							if cm, isM := c.(map[string]interface{}); isM {
+								for k, v := range cm {
+									declared[k] = true
+									if vs, isS := v.(string); isS {
+										declared[vs] = true
+									}
+								}
+							}
+						}
+						var undeclared []string
+						var walk func(v interface{})
+						walk = func(v interface{}) {
+							switch x := v.(type) {
+							case map[string]interface{}:
+								for k, vv := range x {
+									if i := strings.Index(k, ":"); i > 0 && !strings.Contains(k[:i], "/") && !strings.HasPrefix(k, "@") && !declared[k[:i]] {
+										undeclared = append(undeclared, k)
+									}
+									walk(vv)
+								}
+							case []interface{}:
+								for _, e := range x {
+									walk(e)
+								}
+							}
+						}
+						walk(pv)
+						if len(undeclared) > 0 {
+							viol("response-shape", b.Site, "context", fmt.Sprintf("the answer uses %v but its @context %s declares no such prefix", sortedCopy(undeclared), jstr(pm["@context"])))
 						}
 						objs := asList(pm["object"])
 						var fol M
